@@ -9,11 +9,13 @@ THEOREMS = [_NS + t for t in (
     # tier 1: token codecs, every value of the type, any print options
     "int_roundtrip", "int64_roundtrip", "char_roundtrip", "string_roundtrip", "symbol_roundtrip",
     "blob_roundtrip", "midi_roundtrip", "color_roundtrip", "keyword_roundtrip",
-    "float_lossless_roundtrip", "double_lossless_roundtrip", "timetag_roundtrip",
+    "float_lossless_roundtrip", "double_lossless_roundtrip", "timetag_roundtrip", "timetag_fraction_roundtrip",
     # tier 2: uncompressed argument lists and whole messages
     "list_roundtrip", "message_roundtrip",
     # the proved part of the full statement (print_scan_roundtrip_statement stays a def)
     "print_scan_roundtrip_partial",
+    # tier 3, partial: with compression off the full statement (scalars and arrays of scalars)
+    "print_scan_roundtrip_nocompress", "array_roundtrip_nocompress",
     # the model is written over the constants/tables extracted from the source on every run
     "tables_agree", "escape_tables_inverse")]
 HARNESS = {"src": ["pretty.cpp"]}
@@ -25,13 +27,15 @@ RULE = ("each case: print options (lossless, precision 0..9, line length 10..120
         "20 % as whole messages; plus a stream for the libc sub-models (printf %a %#.Nf, sscanf %f %lf %d %i %x, "
         "localtime/mktime); a case is non-trivial when it has at least two argument tokens; distinct = distinct op line")
 ASSUMPTIONS = [
-    "the fix patches fixes/C10-01 … C10-14 (and C16-*.patch for rtosc_arg_vals_eq on repeated arrays) are applied to the tree",
-    "proved (Lean, all values, no bound): tier 1 for every value of the types i h c f d (lossless, finite) s S b m r T F N I "
-    "and for time tags 'immediately' or without second fractions; tier 2 (lists and whole messages, any line length, "
-    "precision 0..9) for all of these except midnight time tags, provided the printer does not compress "
-    "(compression off, or no five same-typed values in a row)",
-    "NOT proved, covered by correspondence + round-trip oracle only: time tags with second fractions, arrays, "
-    "compressed runs (tier 3), midnight time tags inside lists",
+    "the fix patches fixes/C10-01 … C10-15 (and C16-*.patch for rtosc_arg_vals_eq on repeated arrays) are applied to the tree",
+    "proved (Lean, all values, no bound): tier 1 for every scalar value of the property's domain: i h c, f d (finite, "
+    "lossless mode, bit-exact), s S (printable ASCII + C escapes, every line length), b m r T F N I, time tags "
+    "('immediately', without fraction, with float-representable fraction in lossless mode; UTC calendar model); "
+    "tier 2 (lists and whole messages, any line length, precision 0..9) provided the printer does not compress "
+    "(compression off, or no five same-typed values in a row); tier 3 partly: with compression off the full "
+    "statement incl. arrays of scalars (print_scan_roundtrip_nocompress)",
+    "NOT proved, covered by correspondence + round-trip oracle only: compressed runs (nxA, a b ... c) in lists and "
+    "arrays, nested arrays, a midnight time tag (printed as a bare date) anywhere but at the end of the text",
     "TZ=UTC, LC_ALL=C; separator \" \"; the output buffer is large enough (the bs bookkeeping only feeds asserts compiled out with NDEBUG)",
     "the scanner's string buffer is abstracted: string/blob cells carry their bytes",
 ]
@@ -44,12 +48,12 @@ TRUSTED = [
     "C16's cell type and comparison model RtoscModel/ArgVal/{Val,Cmp}.lean (imported)",
 ]
 LEVEL_TEXT = ("Lean theorems: print→check→scan is the identity, with printed length = returned length and the whole text "
-              "consumed, for every value of the types i h c f d s S b m r T F N I and time tags without fraction (tier 1; floats "
-              "and doubles bit-exact in lossless mode via exact %a / strtod models) and for all uncompressed lists and "
-              "messages of them at any line length (tier 2); the full statement incl. time fractions, arrays and compressed "
-              "ranges is checked by exact model/implementation correspondence and by the round-trip oracle evaluated on "
-              "the implementation, not proved")
-LEVEL_NOTE = "partial: tier 3 (ranges, arrays) and time tags with second fractions are correspondence + oracle only"
+              "consumed, for every scalar value of the property's domain (tier 1; floats and doubles bit-exact in lossless "
+              "mode via exact %a / strtod models, time tags under the UTC calendar model), for all uncompressed lists and "
+              "whole messages of them at any line length (tier 2), and with compression off for the full domain incl. arrays "
+              "(tier 3, partial); range compression (tier 3 proper) is checked by exact model/implementation correspondence "
+              "and by the round-trip oracle evaluated on the implementation, not proved")
+LEVEL_NOTE = "partial: range compression (tier 3) is correspondence + oracle only"
 
 
 
@@ -306,6 +310,10 @@ def g_run(rng, lossless, maxlen=9):
             ty = "i"
         delta = rng.choice([1, -1, 1, -1, 2, -2, 3, 10, -10, 100, 1000, -7, 2 ** 30, -2 ** 30, rng.randint(-10 ** 6, 10 ** 6) or 1])
         start = g_i(rng) if ty == "i" else g_h(rng)
+        if rng.random() < 0.15:    # runs that span a large part of the type's range
+            bits = 32 if ty == "i" else 64
+            delta = rng.randint(2 ** (bits - 5), 2 ** (bits - 2)) * rng.choice([1, -1])
+            start = (-2 ** (bits - 1) + rng.randint(0, 2 ** (bits - 4))) if delta > 0 else (2 ** (bits - 1) - 1 - rng.randint(0, 2 ** (bits - 4)))
         return ["%s%d" % (ty, wrap(ty, start + k * delta)) for k in range(n)]
     if lossless and rng.random() < 0.08:      # zeros of both signs compare equal but print differently
         ty = rng.choice("fd")
